@@ -187,7 +187,14 @@ pub const MULTI_RULES: &[&str] = &[
 
 pub fn run(id: &str, cfg: &RunCfg) -> PropResult {
     let (p, quick, thorough) = prop(id);
-    let report = if let Some(case) = &cfg.case {
+    let report = if let Some(case) = cfg.case.as_ref().filter(|c| c.starts_with('c')) {
+        let mut it = case[1..].split(':');
+        let seed: u64 = it.next().and_then(|s| s.parse().ok()).unwrap_or(cfg.seed);
+        let idx: u64 = it.next().and_then(|s| s.parse().ok()).unwrap_or(0);
+        let mut r = crate::report::Report::default();
+        r.add(idx, super::c02conc::concurrent_case(seed, idx));
+        r
+    } else if let Some(case) = &cfg.case {
         let mut it = case.split(':');
         let seed: u64 = it.next().and_then(|s| s.parse().ok()).unwrap_or(cfg.seed);
         let idx: u64 = it.next().and_then(|s| s.parse().ok()).unwrap_or(0);
@@ -196,7 +203,13 @@ pub fn run(id: &str, cfg: &RunCfg) -> PropResult {
         r
     } else {
         let n = if cfg.thorough { thorough } else { quick };
-        run_parallel(n, workers(), |i| run_case(&p, cfg.seed, i, None))
+        let mut r = run_parallel(n, workers(), |i| run_case(&p, cfg.seed, i, None));
+        if id == "C02" {
+            // schedule part: real threads (each run brings 2-8 of its own)
+            let nc = if cfg.thorough { 20_000 } else { 400 };
+            r.merge(run_parallel(nc, 4, |i| super::c02conc::concurrent_case(cfg.seed, i)));
+        }
+        r
     };
     PropResult {
         report,
